@@ -113,6 +113,9 @@ def _payload(shape, rid, seed, tag):
         return [a1, rid * 10 + seed], {}
     if shape == "kwargs":
         return [], {"k": a1, "n": rid + seed}
+    if shape == "kwnames":
+        # (ERROR replies only) keyword names that are also parameter names of exception constructors
+        return [a1], {"error": a1, "callee": rid, "callee_authid": a1, "enc_algo": "x", "k": a1}
     return [a1, rid * 10 + seed], {"k": a1, "n": rid + seed}
 
 
@@ -206,9 +209,10 @@ class World:
                         sc.append(["res", rid, sh])
                         sc.append(["err", kind, rid, sh])
                         nc.append(["prog", rid, sh])
+                    sc.append(["err", kind, rid, "kwnames"])
                 else:
                     sc.append(["ok", kind, rid])
-                    for sh in ("none", "both"):
+                    for sh in ("none", "both", "kwnames"):
                         sc.append(["err", kind, rid, sh])
                 for other in self.R.KINDS:
                     if other != kind:
